@@ -228,7 +228,18 @@ class Interp(object):
             return cv
         k = e.get('k')
         if k == 'cast':
-            return self.ev(e['e'], frame)
+            v = self.ev(e['e'], frame)
+            if isinstance(v, int) and not isinstance(v, bool):
+                # an explicit cast converts to its own type ('ty0' when an implicit conversion follows), then to 'ty'
+                for tid in ([e['ty0']] if 'ty0' in e else []) + [e['ty']]:
+                    t = frame['u'].ty(tid)
+                    if t['c'] == 'bool':
+                        v = int(v != 0)
+                    elif t['c'] == 'int' and t.get('bits'):
+                        v &= (1 << t['bits']) - 1
+                        if not t.get('unsigned') and v >= (1 << (t['bits'] - 1)):
+                            v -= 1 << t['bits']
+            return v
         if k == 'ref':
             dk = e.get('dk')
             if dk in ('local', 'param'):
